@@ -17,6 +17,8 @@ A property module (harness/props/cXX.py) provides
                                 runs the REAL code of /repo on the spec; `monitor` is the
                                 direct reading of the property on the implementation trace
     compare(inp, impl, model)-> None | str    (optional; default: canonical equality)
+    post_case(trace, model_outputs) -> [finding]  (optional; monitors that need the model's
+                                forced/free classification of the implementation's decisions)
     nontrivial(trace)        -> bool
     extra(ctx)               optional extra stage (e.g. replay of Lean counterexamples)
 
@@ -339,7 +341,8 @@ def run_cases(ctx, specs, label):
         if dis:
             dis["spec"] = t["spec"]
             ctx.disagreements.append(dis)
-        for f in t.get("monitor", []):
+        extra = mod.post_case(t, mo) if (hasattr(mod, "post_case") and driver and not dis) else []
+        for f in list(t.get("monitor", [])) + list(extra):
             f = dict(f)
             f["spec"] = t["spec"]
             ctx.findings.append(f)
